@@ -16,8 +16,8 @@ import cpu_props
 from common import Case, RecMem, device_classes, gen_case, run_driver, widths
 
 ID = 'C04'
-LEAN_MODULES = ['Py65.Props.C04', 'Py65.Props.C04b']
-NAMESPACES = ['Py65.Props.C04']
+LEAN_MODULES = ['Py65.Props.C04', 'Py65.Props.C04b', 'Py65.Props.C04c']
+NAMESPACES = ['Py65.Props.C04', 'Py65.Props.C04c']
 # library helpers (CPython behaviour modelled in lean/Py65/Model/*Rt*.lean ...) that the generated code of these
 # modules calls, derived by scanning the Lean sources (harness/rtscan.py); validated against CPython on every run
 import rtcheck  # noqa: E402
@@ -25,7 +25,9 @@ RT_HELPERS = rtcheck.helpers_for(LEAN_MODULES)
 LEVEL = 'proof'
 EXPECTED_THEOREMS = ['Py65.Props.C04.nmos_adc', 'Py65.Props.C04.nmos_sbc', 'Py65.Props.C04.cmos_acv',
                      'Py65.Props.C04.decimal_step_6502', 'Py65.Props.C04.decimal_step_65c02',
-                     'Py65.Props.C04.adc_decimal_any_mode', 'Py65.Props.C04.sbc_decimal_any_mode']
+                     'Py65.Props.C04.adc_decimal_any_mode', 'Py65.Props.C04.sbc_decimal_any_mode',
+                     'Py65.Props.C04c.valid_bcd_is_decimal_difference', 'Py65.Props.C04c.valid_bcd_is_decimal_difference_cmos',
+                     'Py65.Props.C04c.cmos_acv_definitional_part']
 TRUSTED = ['Spec.Decimal (transcription of Bruce Clark\'s decimal-mode sequences)',
            'translator py2lean (validated every run)']
 ASSUMPTIONS = ['the lifting of the (A,M,C) kernel to every addressing mode and machine state IS a Lean theorem (C04b: decimal_step_6502 / decimal_step_65c02, frame included); the run on the real devices (all modes) is the failing-input search',
